@@ -76,7 +76,7 @@ PROPS = {
         theorem_files=['C18', 'GoTypes'],
         judge='C18', judge_module='Judge.J13', judge_fn='judge_C18',
         cases=dict(quick=2000, thorough=60000),
-        rule='the C03 problem generator (CNF, cardinality, PB through the constructors and through OPB texts, with and without cost '
+        rule='(round 5: a quarter of the cnf / pb cases print the Problem after a solver built from it has searched) the C03 problem generator (CNF, cardinality, PB through the constructors and through OPB texts, with and without cost '
              'function, incl. problems decided at parse time) x printers Problem.CNF (CNF problems), Problem.PBString, '
              'Solver.PBString before and after Solve; the printed text is read by the Coq readers parse_dimacs / parse_opb and must '
              'have the models and the cost per model of the original problem (variables that no longer occur are free), and is read '
@@ -102,7 +102,7 @@ PROPS = {
         parts=[dict(harness='C17', judge='C17', cases=dict(quick=6000, thorough=60000), judge_module='Judge.J17', judge_fn='judge_C17',
                     prerender=dict(gen='C17gen', renderer='render17'))],
         no_shrink=True,
-        rule='syntax trees of depth 1..5 (6 thorough) over 1..5 names drawn from {a b c d e x1 if _y 7 go} (keywords and a number '
+        rule='(round 5: a third of the trees are biased towards one operator, six draws out of ten) syntax trees of depth 1..5 (6 thorough) over 1..5 names drawn from {a b c d e x1 if _y 7 go} (keywords and a number '
              'included), all five binary operators, negation, exactly-one groups of 1..4 names; each tree is rendered by the '
              'extracted Coq printer print_chars with a random layout stream (redundant parentheses, blanks, tabs, newlines, '
              'comments) -- exactly the texts C17_roundtrip_chars quantifies over -- and given to bf.Parse; the truth table of the '
@@ -143,7 +143,7 @@ PROPS = {
     'C11': dict(
         judge='C11', judge_module='Judge.J11', judge_fn='judge_C11',
         cases=dict(quick=10000, thorough=100000),
-        rule='random formula trees, depth 1..4 over 1..5 (6 thorough) names: variables, constants at every position, negation, '
+        rule='(round 5: the first 344 cases are the exactly-one groups of 2..9 names, positive and negated, pinned at every assignment with at most two names true; a quarter of the other formulas are conjoined with literals for all their variables) random formula trees, depth 1..4 over 1..5 (6 thorough) names: variables, constants at every position, negation, '
              'n-ary and/or with 0..3 subformulas, implies, equivalence, xor, exactly-one groups of 0..7 names; 10% exactly-one '
              'groups of 0..9 names alone or conjoined, a quarter of them negated; 10% alternating or/and nests of depth 2..4; the '
              'returned map is checked under EVERY completion of the variables it does not mention; non-trivial = satisfiable and '
@@ -196,7 +196,7 @@ PROPS = {
         parts=[dict(harness='C08', judge='C08', cases=dict(quick=5000, thorough=50000), judge_module='Judge.J06', judge_fn='judge_C08'),
                dict(harness='C08s', judge='C08s', cases=dict(quick=2000, thorough=20000)),
                dict(harness='G08', judge='goirup', cases=dict(quick=6000, thorough=60000), judge_module='Judge.J26', judge_fn='judge_goir_up', kernel_cases=60, kernel_maxlen=1500, needs_hooks=True)],
-        rule='part 3 (G08): the unit propagation of the checker, (*Problem).unsat of explain/problem.go, run through the hook explain.VerifUnsat on generated states (clauses with repeated literals, empty clauses, certificate lines already added, partial bindings, tags): result, panic and the bindings and tags it leaves equal what the interpreter of coq/Model/GoIR2.v computes on the syntax tree regenerated from that source (coq/Gen/GoSrcX.v, judge coq/Judge/J26.v). '
+        rule='(round 5: a third of the pairs are preceded by ANOTHER certificate, mostly rejected, on the same Problem value; a third of the instances are under-constrained, half of those with random certificates) part 3 (G08): the unit propagation of the checker, (*Problem).unsat of explain/problem.go, run through the hook explain.VerifUnsat on generated states (clauses with repeated literals, empty clauses, certificate lines already added, partial bindings, tags): result, panic and the bindings and tags it leaves equal what the interpreter of coq/Model/GoIR2.v computes on the syntax tree regenerated from that source (coq/Gen/GoSrcX.v, judge coq/Judge/J26.v). '
              'part 1: (CNF problem, certificate) pairs over 2..7 (quick) / 2..10 (thorough) variables: genuine solver traces, traces '
              'with one literal dropped or flipped, one line removed, lines permuted, random clause sequences (with tautological and '
              'repeated-literal lines); reader and channel entry points; each pair checked twice on the same Problem; '
@@ -243,7 +243,7 @@ PROPS = {
         theorem_files=['C09', 'Judges'],
         judge='C09m', judge_module='Judge.JModel', judge_fn='judge_C09_m',
         cases=dict(quick=6000, thorough=60000),
-        rule='base problems (CNF, unit-rich, 3-SAT, cardinality, PB; 2..8 variables quick, 2..12 thorough) x histories of 1..8 '
+        rule='(round 5: a third of the histories are model-guided: after a Sat answer the next additions are built from the model returned and the known top-level facts, constraints it only just satisfies followed by the negation of what made them true) base problems (CNF, unit-rich, 3-SAT, cardinality, PB; 2..8 variables quick, 2..12 thorough) x histories of 1..8 '
              'operations Solve | AppendClause(c) ending with a Solve; c = clause (20% repeated literal, 10% tautology, up to 2 '
              'brand-new variables), empty or unit clause, cardinality constraint, PB constraint (through PBConstr.Clause()); '
              'non-trivial = history with at least 2 Solve operations',
@@ -271,7 +271,7 @@ PROPS = {
                dict(harness='T01', judge='trace', cases=dict(quick=500, thorough=5000), judge_module='Judge.J22', judge_fn='judge_trace', kernel_cases=12, kernel_maxlen=40000),
                dict(harness='P01', judge='parse', cases=dict(quick=9000, thorough=40000), judge_module='Judge.J23', judge_fn='judge_parse', kernel_cases=60, kernel_maxlen=1500)],
         exhaustive=dict(quick=True, thorough=True),
-        rule='cases 0..7310 = EVERY ordered list of <=2 clauses of <=3 literals over 2 variables (duplicates, tautologies, '
+        rule='(round 5: implication chains written forwards / backwards / shuffled with their unit anywhere; one case in 800 has thousands of pairs (x v y)(x v -y) whose conflicts each teach a unit, so that the first database reduction meets an empty list; restarts forced by the hook can become due right after a conflict) cases 0..7310 = EVERY ordered list of <=2 clauses of <=3 literals over 2 variables (duplicates, tautologies, '
              'empty and unit clauses included) through ParseSlice / ParseSliceNb(+2 unused variables) / ParseCNF, then random '
              'CNF (mixed lengths with 10% duplicate literals and 5% tautologies, unit-rich, 3-SAT near the threshold for '
              'n in [3,14] and [15,30], pigeonhole 2-4, parity chains); configuration rotates over certificate on/off x '
@@ -318,7 +318,7 @@ PROPS = {
         theorem_files=['C04', 'Judges'],
         judge='C04', judge_module='Judge.J04', judge_fn='judge_C04',
         cases=dict(quick=6000, thorough=60000),
-        rule='random weighted partial MaxSAT instances over 1..7 (quick) / 1..10 (thorough) names, 1..n+4 constraints, each hard '
+        rule='(round 5: WCNF texts with empty soft / hard clauses; api route with coefficient slices shared between constraints and the problem built twice from the same constraints) random weighted partial MaxSAT instances over 1..7 (quick) / 1..10 (thorough) names, 1..n+4 constraints, each hard '
              'or soft with weight 1..5; API route: clauses, cardinality constraints (nil coefficients, degree 1..len), PB '
              'constraints (coefficients 1..4, occasionally 0 or negative, degree 0..sum+1); WCNF route (channel and nil): declared '
              'n = max or max+1 or max+3, top absent / above the sum / small (weights >= top are hard); non-trivial = hard part '
@@ -331,7 +331,7 @@ PROPS = {
         theorem_files=['C05', 'Judges'],
         judge='C05m', judge_module='Judge.JModel', judge_fn='judge_C05_m',
         cases=dict(quick=3000, thorough=40000),
-        rule='cases = fixed empty problems (n=0..6, four front ends) then random CNF / long-clause / unit-rich / '
+        rule='(round 5: a quarter of the cases count / enumerate with the cutting-planes strategy on) cases = fixed empty problems (n=0..6, four front ends) then random CNF / long-clause / unit-rich / '
              'cardinality / PB problems over 1..8 (quick) or 1..11 (thorough) variables; a case is non-trivial when it '
              'has at least one constraint and at least one model; distinct = distinct (problem, observables) texts',
         nontrivial=lambda sx, v, meta: _info0_pos(sx, v, meta) and not meta.get('class', '').startswith('empty'),
